@@ -242,6 +242,29 @@ def run(ctx):
                                 u = complete_url(p, cx[cn])
                                 cu_impl.append({'schema': u.schema or '', 'host': u.host or '', 'segs': segs(u.path)})
                             except ValueError: cu_impl.append({'err': 'ValueError'})
+            # ... and with the sandboxes held as ru.Url objects, the way Pilot.stage_in / stage_out hold their contexts:
+            # the directives of a task are resolved one after the other against the SAME context
+            import radical.utils as ru
+            for t in tasks:
+                cx = contexts(t)
+                ucx = {k: ru.Url(v) for k, v in cx['agent'].items()}
+                for key in ('input_staging', 'output_staging'):
+                    for sd in t['description'][key]:
+                        for which in ('source', 'target'):
+                            p = sd[which]
+                            if not p: continue
+                            cu_ops.append({'op': 'complete', 'ctx': [[k, v] for k, v in cx['agent'].items()], 'p': p})
+                            try:
+                                u = complete_url(p, ucx)
+                                cu_impl.append({'schema': u.schema or '', 'host': u.host or '', 'segs': segs(u.path)})
+                            except ValueError: cu_impl.append({'err': 'ValueError'})
+                            moved = [k for k in ucx if str(ucx[k]) != str(ru.Url(cx['agent'][k]))]
+                            if moved:
+                                ctx.fail('url-completion-moves-the-sandbox-it-resolves-against',
+                                         'after resolving %r the context entry %s reads %s (was %s)' % (p, moved[0], ucx[moved[0]], cx['agent'][moved[0]]),
+                                         {'kind': 'urlctx', 'ctx': cx['agent'], 'paths': [x[w] for k2 in ('input_staging', 'output_staging')
+                                                                                       for x in t['description'][k2] for w in ('source', 'target') if x[w]]})
+                                ucx = {k: ru.Url(v) for k, v in cx['agent'].items()}
             model_tasks = [{'uid': int(t['uid'].split('.')[1]), 'boxes': boxes(tree, t),
                             'inputs': [{'source': sd['source'], 'target': sd['target'] or '', 'action': sd['action']} for sd in t['description']['input_staging']],
                             'outputs': [{'source': sd['source'], 'target': sd['target'] or '', 'action': sd['action']} for sd in t['description']['output_staging']],
@@ -392,6 +415,18 @@ CORPUS = [_c_tarball, _c_on_error, _c_missing]
 def replay(ctx, data):
     rp = rpload.load()
     i = data['input']
+    if i.get('kind') == 'urlctx':
+        import radical.utils as ru
+        from radical.pilot.staging_directives import complete_url
+        ucx = {k: ru.Url(v) for k, v in i['ctx'].items()}
+        ok = True
+        for p in i['paths']:
+            try: u = complete_url(p, ucx)
+            except ValueError: u = 'ValueError'
+            moved = [k for k in ucx if str(ucx[k]) != str(ru.Url(i['ctx'][k]))]
+            print(p, '->', u, 'context entries moved:', moved)
+            ok = ok and not moved
+        return ok
     root = tempfile.mkdtemp(prefix='c11_')
     try:
         tree = stagelib.Tree(root)
